@@ -156,8 +156,11 @@ func RuleTransport(r *Report, p *Program, rules aspectSet) {
 			}
 			conn, openIdx, opened := connOf(pa)
 			// ---- T3 lock discipline
-			locks := evIdx(pa, func(e Event) bool { return isCall(e, "sync.Mutex).Lock") })
-			unlockDefers := evIdx(pa, func(e Event) bool { return e.Kind == "defer" && strings.HasSuffix(e.Name, "sync.Mutex).Unlock") })
+			// the process-wide lock is a package-level mutex; mutexes local to the call guard other things
+			locks := evIdx(pa, func(e Event) bool { return isCall(e, "sync.Mutex).Lock") && isGlobalRef(e.Args[0]) })
+			unlockDefers := evIdx(pa, func(e Event) bool {
+				return e.Kind == "defer" && strings.HasSuffix(e.Name, "sync.Mutex).Unlock") && isGlobalRef(e.Args[0])
+			})
 			portFixed, portKnown := false, false
 			for k, v := range pa.State.Ints {
 				if strings.HasSuffix(k, ".Port") {
@@ -361,6 +364,10 @@ func RuleTransport(r *Report, p *Program, rules aspectSet) {
 }
 
 func (s IntervalSet) Equal(o IntervalSet) bool { return s.String() == o.String() }
+
+func isGlobalRef(t *Term) bool {
+	return t != nil && t.Op == "ptr" && t.Cell != nil && t.Cell.Sym && t.Cell.Val != nil && t.Cell.Val.Op == "global" && len(t.Path) == 0
+}
 
 func returnsList(fn *ssa.Function) bool {
 	res := fn.Signature.Results()
@@ -677,11 +684,34 @@ func collectAccesses(fn *ssa.Function, target ssa.Value, out *[]access, after ss
 }
 
 func RuleShare(r *Report, p *Program, rules aspectSet) {
+	RuleShareIn(r, p, rules, nil)
+}
+
+// returnsListName: the named function returns a list of datagrams (the discovery collector).
+func returnsListName(p *Program, name string) bool {
+	for _, fn := range p.AllFuncs {
+		if calleeName(fn) == name {
+			return returnsList(fn)
+		}
+	}
+	return false
+}
+
+// RuleShareIn restricts the goroutine rules to go statements whose enclosing function satisfies keep.
+func RuleShareIn(r *Report, p *Program, rules aspectSet, keep func(parent string) bool) {
 	if rules["T8"] {
-		r.Rule("T8", "a variable captured by a goroutine and written in one goroutine is accessed in another only under a common mutex, or is of a channel/sync/atomic type", 3)
+		m := 3
+		if keep != nil {
+			m = 1
+		}
+		r.Rule("T8", "a variable captured by a goroutine and written in one goroutine is accessed in another only under a common mutex, or is of a channel/sync/atomic type", m)
 	}
 	if rules["T7"] {
-		r.Rule("T7", "every goroutine that loops on a blocking read leaves the loop when the read fails, and its connection is closed by the parent or a sibling", 2)
+		m := 2
+		if keep != nil {
+			m = 1
+		}
+		r.Rule("T7", "every goroutine that loops on a blocking read leaves the loop when the read fails, and its connection is closed by the parent or a sibling", m)
 	}
 	nGo := 0
 	for _, fn := range p.AllFuncs {
@@ -692,6 +722,9 @@ func RuleShare(r *Report, p *Program, rules aspectSet) {
 			for _, in := range b.Instrs {
 				g, ok := in.(*ssa.Go)
 				if !ok {
+					continue
+				}
+				if keep != nil && !keep(calleeName(fn)) {
 					continue
 				}
 				nGo++
